@@ -231,13 +231,30 @@ def sh(cmd, cwd=None, timeout=3600):
     return p.returncode, p.stdout + p.stderr
 
 
-def hygiene(mod_files):
+def lean_closure(mod):
+    """Files of the property's Lean modules and everything of this library they import."""
+    todo = list(mod.LEAN_MODULES)
+    seen = []
+    while todo:
+        m = todo.pop()
+        if m in seen or not m.startswith("PyYetiVerif"):
+            continue
+        path = os.path.join(LEAN, *m.split(".")) + ".lean"
+        if not os.path.exists(path):
+            continue
+        seen.append(m)
+        for line in open(path, encoding="utf-8"):
+            mm = re.match(r"\s*(?:public\s+)?import\s+(PyYetiVerif[\w.]*)", line)
+            if mm:
+                todo.append(mm.group(1))
+    return [os.path.join(LEAN, *m.split(".")) + ".lean" for m in seen]
+
+
+def hygiene(mod):
     hits = []
-    for root, _, files in os.walk(os.path.join(LEAN, "PyYetiVerif")):
-        for f in files:
-            if not f.endswith(".lean"):
-                continue
-            path = os.path.join(root, f)
+    drv = os.path.join(LEAN, "Drivers", mod.ID + ".lean")
+    for path in lean_closure(mod) + ([drv] if os.path.exists(drv) else []):
+        if True:
             in_block = 0
             for i, line in enumerate(open(path, encoding="utf-8"), 1):
                 # strip block and line comments (coarse but conservative)
@@ -263,8 +280,12 @@ def hygiene(mod_files):
     return hits
 
 
-def generated_changed():
-    rc, out = sh(["git", "status", "--porcelain", "--", "lean/PyYetiVerif/Generated"], cwd=VERIF)
+def generated_changed(mod):
+    """Generated/*.lean files in the property's import closure that differ from the committed snapshot."""
+    files = [os.path.relpath(p, VERIF) for p in lean_closure(mod) if os.sep + "Generated" + os.sep in p]
+    if not files:
+        return []
+    rc, out = sh(["git", "status", "--porcelain", "--"] + files, cwd=VERIF)
     return [l for l in out.splitlines() if l.strip()]
 
 
@@ -350,6 +371,9 @@ def main(argv=None):
     except ValueError:
         seed = 0
     prop = a.prop.upper()
+    # property modules do `from runner import TieBroken`: make that the SAME module object as
+    # this script (which runs as __main__), otherwise `except TieBroken` below never matches
+    sys.modules.setdefault("runner", sys.modules[__name__])
     sys.path.insert(0, os.path.join(VERIF, "harness"))
     ctx = Ctx(prop, tier, seed)
     try:
@@ -388,7 +412,7 @@ def main(argv=None):
         if not a.no_lean:
             ok, log = lean_build(ctx, mod)
             if not ok:
-                changed = generated_changed()
+                changed = generated_changed(mod)
                 errs = [l for l in log.splitlines() if l.startswith("error")][:12]
                 if changed:
                     ctx.broken.append(
